@@ -26,9 +26,21 @@ val compOpp : comparison -> comparison
 
 val add : nat -> nat -> nat
 
+val sub : nat -> nat -> nat
+
 module Nat :
  sig
   val eqb : nat -> nat -> bool
+
+  val leb : nat -> nat -> bool
+
+  val ltb : nat -> nat -> bool
+
+  val max : nat -> nat -> nat
+
+  val min : nat -> nat -> nat
+
+  val eq_dec : nat -> nat -> bool
  end
 
 type positive =
@@ -153,6 +165,8 @@ val tl : 'a1 list -> 'a1 list
 val nth : nat -> 'a1 list -> 'a1 -> 'a1
 
 val nth_error : 'a1 list -> nat -> 'a1 option
+
+val remove : ('a1 -> 'a1 -> bool) -> 'a1 -> 'a1 list -> 'a1 list
 
 val rev : 'a1 list -> 'a1 list
 
@@ -811,3 +825,177 @@ val fc_run_case : str list list -> str list
 val fc_case : (str * str list) -> str list
 
 val fc_file : str -> str
+
+type notif =
+| NNone
+| NOne
+| NAll
+
+type poll_res =
+| PollReadyPermit
+| PollReadyCalls
+| PollPending
+
+val poll_init : bool -> nat -> nat -> poll_res
+
+type kind =
+| Unary
+| Stream
+
+type outcome0 =
+| OMessages of nat
+| OEmpty
+| OError
+| ONotFound
+
+type reply =
+| RMsgs of nat
+| RClosed
+
+type phase =
+| PU0 of bool
+| PU1 of nat * bool
+| PU2 of nat * reply option
+| PU3 of nat
+| PParked of notif
+| PDone of outcome0
+| PGone
+
+type cons0 = { ckind : kind; cmax : nat; cphase : phase; ctimed : bool;
+               cgot : nat }
+
+val with_phase : phase -> cons0 -> cons0
+
+val with_timed : cons0 -> cons0
+
+val add_got : nat -> cons0 -> cons0
+
+type req0 =
+| RPost of nat
+| RPull0 of nat * nat
+| RNack of nat
+| RAck0 of nat
+| RDelete
+
+type state0 = { permit : bool; waiters : nat list; calls0 : nat;
+                backlog : nat; leased : nat; deleted : bool; exited : 
+                bool; mailbox : req0 list; conss : cons0 list }
+
+val init : state0
+
+val set_permit : bool -> state0 -> state0
+
+val set_waiters : nat list -> state0 -> state0
+
+val set_calls : nat -> state0 -> state0
+
+val set_backlog : nat -> state0 -> state0
+
+val set_leased : nat -> state0 -> state0
+
+val set_deleted : bool -> state0 -> state0
+
+val set_exited : bool -> state0 -> state0
+
+val set_mailbox : req0 list -> state0 -> state0
+
+val set_conss : cons0 list -> state0 -> state0
+
+val get : state0 -> nat -> cons0 option
+
+val upd0 : cons0 list -> nat -> (cons0 -> cons0) -> cons0 list
+
+val setc : nat -> (cons0 -> cons0) -> state0 -> state0
+
+val wake0 : notif -> cons0 -> cons0
+
+val notify_one : state0 -> state0
+
+val notify_waiters : state0 -> state0
+
+val finish : phase -> nat -> (cons0 -> cons0) -> state0 -> state0
+
+val leave : bool -> phase -> nat -> (cons0 -> cons0) -> state0 -> state0
+
+val suspended : phase -> bool
+
+val closed_outcome : kind -> outcome0
+
+val cons_step : bool -> nat -> state0 -> nat -> state0 option
+
+val del_exit : bool -> state0 -> nat -> state0 option
+
+val alive : phase -> bool
+
+val timeout : bool -> state0 -> nat -> state0 option
+
+val cancel : bool -> state0 -> nat -> state0 option
+
+val deliver_f : reply -> cons0 -> cons0
+
+val deliver : nat -> reply -> state0 -> state0
+
+val requeue : nat -> state0 -> state0
+
+val pull_count0 : nat -> nat -> nat
+
+val turn : state0 -> state0 option
+
+val close_req : state0 -> req0 -> state0
+
+val actor_exit : state0 -> state0 option
+
+type label =
+| LTurn
+| LExit
+| LCons of nat
+| LDelExit of nat
+| LEnq of req0
+| LExpire of nat
+| LArrive of kind * nat
+| LCancel of nat
+| LTimeout of nat
+
+val is_pull : req0 -> bool
+
+val new_cons : kind -> nat -> cons0
+
+val step0 : bool -> nat -> state0 -> label -> state0 option
+
+val cs_ho : bool
+
+val cs_K : nat
+
+type cs_state = { cs_st : state0; cs_ids : (n * nat) list }
+
+val cs_init : cs_state
+
+val cs_lookup : n -> (n * nat) list -> nat option
+
+val cs_poll_steps : nat -> state0 -> nat -> state0
+
+val cs_poll : state0 -> nat -> state0
+
+val cs_turns : nat -> state0 -> state0
+
+val cs_settle : state0 -> state0
+
+val cs_request : req0 -> state0 -> state0
+
+val cs_fill : nat -> state0 -> state0
+
+val cs_phase_line : state0 -> nat -> str
+
+val cs_bad : str
+
+val cs_finished : state0 -> nat -> bool
+
+val cs_forget : n -> (n * nat) list -> (n * nat) list
+
+val cs_op : cs_state -> str list -> cs_state * str
+
+val cs_lines : cs_state -> str list list -> str list
+
+val cs_case : (str * str list) -> str list
+
+val cs_file : str -> str
